@@ -171,6 +171,9 @@ static int new_packet(int sk_fd, int can_socket) {
 
         acf_pdu = &pdu[proc_bytes + msg_proc_bytes];
 
+        // Every ACF message becomes a CAN frame of its own
+        memset(&frame, 0, sizeof(frame));
+
         if (!is_valid_acf_packet(acf_pdu)) {
             return 0;
         }
